@@ -87,6 +87,17 @@ type Spec struct {
 	Targets []*Target         `json:"targets"`
 	Aliases []*Alias          `json:"aliases,omitempty"`
 	Files   map[string]string `json:"-"`
+	// DefaultPlatforms: package -> default_platforms of its BUILD file (applies to the targets
+	// of the package that declare no platforms of their own)
+	DefaultPlatforms map[string][]string `json:"default_platforms,omitempty"`
+}
+
+// EffectivePlatforms: the target's own platform selectors, else its package's defaults.
+func (s *Spec) EffectivePlatforms(t *Target) []string {
+	if len(t.Platforms) > 0 {
+		return t.Platforms
+	}
+	return s.DefaultPlatforms[t.Pkg]
 }
 
 func Label(pkg, name string) string { return "//" + pkg + ":" + name }
@@ -263,8 +274,9 @@ type JSONAlias struct {
 	Actual string `json:"actual"`
 }
 type JSONPackage struct {
-	Targets []JSONTarget `json:"targets"`
-	Aliases []JSONAlias  `json:"aliases,omitempty"`
+	DefaultPlatforms []string     `json:"default_platforms,omitempty"`
+	Targets          []JSONTarget `json:"targets"`
+	Aliases          []JSONAlias  `json:"aliases,omitempty"`
 }
 
 func (c Check) Command() string {
@@ -293,6 +305,7 @@ func (t *Target) JSON() JSONTarget {
 // PackageJSON renders one package as BUILD.json bytes.
 func (s *Spec) PackageJSON(pkg string) []byte {
 	var p JSONPackage
+	p.DefaultPlatforms = s.DefaultPlatforms[pkg]
 	p.Targets = []JSONTarget{}
 	for _, t := range s.Targets {
 		if t.Pkg == pkg {
